@@ -82,9 +82,32 @@ pub mod verif_drift {
     use uom::si::length::meter;
     use uom::si::time::second;
 
-    pub struct VerifDriftTables(DriftTables);
+    pub struct VerifDriftTables(core::mem::ManuallyDrop<DriftTables>);
 
     impl VerifDriftTables {
+        /// Like [`new`](Self::new) but without copying: every inner `Vec`
+        /// aliases the given read-only static slice. A model checker then sees
+        /// the knots as constants instead of as the result of thousands of
+        /// heap writes.
+        pub fn from_static(tables: &[(&'static [(Time, Length, Angle)], Length)]) -> Self {
+            let mut outer = Vec::with_capacity(tables.len());
+            let mut k = 0;
+            while k < tables.len() {
+                let (knots, z) = tables[k];
+                // SAFETY: the `Vec` is only ever read; it is never mutated,
+                // reallocated or dropped (the tables live in a `ManuallyDrop`).
+                let inner = unsafe {
+                    Vec::from_raw_parts(
+                        knots.as_ptr() as *mut (Time, Length, Angle),
+                        knots.len(),
+                        knots.len(),
+                    )
+                };
+                outer.push((DriftTable(inner), z));
+                k += 1;
+            }
+            Self(core::mem::ManuallyDrop::new(DriftTables(outer)))
+        }
         /// `tables[k] = (knots (t, r, lorentz), z upper bound)`.
         pub fn new(tables: &[(&[(f64, f64, f64)], f64)]) -> Self {
             let mut outer = Vec::with_capacity(tables.len());
@@ -105,11 +128,11 @@ pub mod verif_drift {
                 outer.push((DriftTable(inner), Length::new::<meter>(z)));
                 k += 1;
             }
-            Self(DriftTables(outer))
+            Self(core::mem::ManuallyDrop::new(DriftTables(outer)))
         }
         /// The tables shipped with the crate (the `lazy_static` instance).
         pub fn shipped() -> Self {
-            Self(DRIFT_TABLES.clone())
+            Self(core::mem::ManuallyDrop::new(DRIFT_TABLES.clone()))
         }
         /// Number of z slices.
         pub fn len(&self) -> usize {
